@@ -124,7 +124,8 @@ Section History.
     intros [Hc Hf]. unfold step_request.
     destruct (target_uri t) as [[p q]|]; [|split; [exact I|split; assumption]].
     cbn zeta.
-    set (ov := override_of (pc_default_ext c) m k).
+    set (k' := eff_kind t k).
+    set (ov := override_of (pc_default_ext c) m k').
     destruct (keys_of ov (primed_path (pc_host c) p) q) as [kpq kp].
     destruct (cache_lookup (pc_cache c) kpq kp (fst st)) as [cr0|] eqn:Hit.
     - pose proof (cache_lookup_ok c P _ _ _ _ _ Hc Hit) as Hcr0.
@@ -138,7 +139,7 @@ Section History.
       + split; [exact Hcr0|split; [exact Hc|exact T2]].
       + assert (Hb : body_ok c P (c_body
                    match find_run ev with
-                   | Some k0 => prepare_response c k0 k
+                   | Some k0 => prepare_response c k0 k'
                    | None => {| c_status := r_status r;
                                 c_body := match r_body r, r_err r with
                                           | Some content, _ => content
@@ -167,7 +168,7 @@ Section History.
       destruct (r_status r =? 0); [split; [exact I|split; assumption]|].
       assert (Hb : body_ok c P (c_body
                    match find_run ev with
-                   | Some k0 => prepare_response c k0 k
+                   | Some k0 => prepare_response c k0 k'
                    | None => {| c_status := r_status r;
                                 c_body := match r_body r, r_err r with
                                           | Some content, _ => content
@@ -258,9 +259,9 @@ Lemma unsafe_step_lemma c st m t k p q :
     (forall f, f <> error_path (pc_host c) 400 -> fc_get f fc' = fc_get f (snd st)).
 Proof.
   intros Hu U Hf. unfold step_request. rewrite Hu. cbn zeta.
-  destruct (keys_of (override_of (pc_default_ext c) m k) (primed_path (pc_host c) p) q) as [kpq kp].
+  destruct (keys_of (override_of (pc_default_ext c) m (eff_kind t k)) (primed_path (pc_host c) p) q) as [kpq kp].
   set (cached := option_map abstract (cache_lookup (pc_cache c) kpq kp (fst st))).
-  set (ov := override_of (pc_default_ext c) m k).
+  set (ov := override_of (pc_default_ext c) m (eff_kind t k)).
   pose proof (unsafe_is_400_and_silent_st_lemma (pc_host c) (pc_fs c) (pc_fcache c) (snd st) (meth_of m) ov cached p U) as H.
   pose proof (fcache_transparent_lemma (pc_host c) (pc_fs c) (pc_fcache c) (snd st) (meth_of m) ov cached p Hf) as T.
   assert (E : forall rr evv cc, serve (pc_host c) (pc_fs c) (meth_of m) ov cached p = (rr, evv) ->
@@ -317,7 +318,7 @@ Proof.
 Qed.
 
 Lemma no_override_strip_lemma c st m t k :
-  benign_host (pc_host c) -> override_of (pc_default_ext c) m k = None ->
+  benign_host (pc_host c) -> override_of (pc_default_ext c) m (eff_kind t k) = None ->
   step_request (strip_internal c) st m t k = step_request c st m t k.
 Proof.
   intros Bh Ho. unfold step_request. cbn [strip_internal pc_default_ext pc_cache pc_fcache pc_host pc_fs].
